@@ -101,6 +101,7 @@ type vfResult struct {
 	Violations []vfViolation    `json:"violations,omitempty"`
 	Log        []string         `json:"log,omitempty"`
 	Plan       *vfPlan          `json:"plan,omitempty"`
+	Plans      map[string]*vfPlan `json:"plans,omitempty"` // per violation key: a (minimised) plan reproducing it
 	Infra      string           `json:"infra,omitempty"` // infrastructure trouble (exit 2), never a violation
 	ShrunkFrom int              `json:"shrunk_from,omitempty"`
 	ShrunkRuns int              `json:"shrunk_runs,omitempty"`
